@@ -20,8 +20,8 @@ Definition exg_kws_b : list kwline :=
 (* rejected: [Reference] before [Number of Ports] *)
 Definition exg_kws_bad : list kwline :=
   [KLNFreq (inumd "2"); KLRef [numd "50"; numd "75"]; KLPorts (inumd "2"); KLOrder true; KLNNoise (inumd "2"); KLMatrix MFull].
-Definition exg_a : v2gfile := mkv2g exg_opts exg_kws_a exg_records exg_noise true.
-Definition exg_b : v2gfile := mkv2g exg_opts exg_kws_b exg_records exg_noise false.
+Definition exg_a : v2gfile := mkv2g true exg_opts exg_kws_a exg_records exg_noise true.
+Definition exg_b : v2gfile := mkv2g true exg_opts exg_kws_b exg_records exg_noise false.
 Definition hdr_of (f : v2gfile) : hdr := match q_hdr f with Some h => h | None => hdr0 true end.
 
 Definition exg_a_bytes : list N := file_of
@@ -30,6 +30,13 @@ Definition exg_a_bytes : list N := file_of
    "[Two-Port Order] 21_12"; "[Begin Information]"; "[Network Data]";
    "100 0.5 0.25 0.01 -0.02 2.5 1.5 -0.125 0.75"; "200 0.5 0.5 0.02 -0.03 2.25 1.25 -0.25 0.5";
    "[Noise Data]"; "100 1.1 0.5 20 0.3"; "200 1.3 0.4 30 0.4"; "[End]"].
+
+(* a "[Version] 1.0" file that carries version-2 keywords (Z parameters, R 50): read by the version-2 reader, un-normalised *)
+Definition exh_opts : list ofield := [OFKw OHz; OFKw OZ; OFKw ORI; OFR (numd "50")].
+Definition exh_kws : list kwline := [KLNFreq (inumd "1"); KLPorts (inumd "1")].
+Definition exh : v2gfile := mkv2g false exh_opts exh_kws [(numd "1000", map numd ["1.5"; "-0.5"])] [] true.
+Definition exh_bytes : list N := file_of
+  ["[Version] 1.0"; "# Hz Z RI R 50"; "[Number of Frequencies] 1"; "[Number of Ports] 1"; "[Network Data]"; "1000 1.5 -0.5"; "[End]"].
 
 Local Close Scope string_scope.
 
@@ -49,7 +56,7 @@ Ltac kwok_steps :=
 
 Lemma exg_a_wf : v2g_wf (hdr_of exg_a) exg_a.
 Proof.
-  unfold v2g_wf. cbn [exg_a q_opts q_kws q_records q_noise q_end].
+  unfold v2g_wf. cbn [exg_a q_v2 q_opts q_kws q_records q_noise q_end].
   split; [unfold exg_opts; wf_steps |].
   split; [unfold exg_kws_a; kwok_steps |].
   split; [vm_compute; reflexivity |].
@@ -64,7 +71,7 @@ Qed.
 
 Lemma exg_b_wf : v2g_wf (hdr_of exg_b) exg_b.
 Proof.
-  unfold v2g_wf. cbn [exg_b q_opts q_kws q_records q_noise q_end].
+  unfold v2g_wf. cbn [exg_b q_v2 q_opts q_kws q_records q_noise q_end].
   split; [unfold exg_opts; wf_steps |].
   split; [unfold exg_kws_b; kwok_steps |].
   split; [vm_compute; reflexivity |].
@@ -110,5 +117,33 @@ Lemma exg_a_object :
   end.
 Proof.
   unfold load_ts. rewrite exg_a_stream, (v2g_load_lemma _ _ exg_a_wf). split; [reflexivity |].
+  vm_compute. repeat split; reflexivity.
+Qed.
+
+Lemma exh_wf : v2g_wf (hdr_of exh) exh.
+Proof.
+  unfold v2g_wf. cbn [exh q_v2 q_opts q_kws q_records q_noise q_end].
+  split; [unfold exh_opts; wf_steps |].
+  split; [unfold exh_kws; kwok_steps |].
+  split; [vm_compute; reflexivity |].
+  split; [vm_compute; split; discriminate |].
+  split; [vm_compute; split; [discriminate | intro H; exfalso; apply H; reflexivity] |].
+  split; [vm_compute; reflexivity |].
+  split; [cbn [map]; wf_steps |].
+  split; [apply ascendingb_sound; vm_compute; reflexivity |].
+  replace (0 <=? h_nnoise (hdr_of exh))%Z with false by (vm_compute; reflexivity). reflexivity.
+Qed.
+Lemma exh_stream : tokens exh_bytes = v2g_stream (hdr_of exh) exh.
+Proof. vm_compute. reflexivity. Qed.
+(* file type Touchstone 1, Z parameters, the cell 1.5 - 0.5 i un-normalised by R = 50 to 75 - 25 i *)
+Definition exh_object_stmt : Prop :=
+  match load_ts exh_bytes with
+  | Ok o => o = v2g_result (hdr_of exh) exh /\ o_v2 o = false /\ o_type o = PZ /\ o_ports o = 1%nat /\
+            cview (nth 0 (nth 0 (o_cells o) []) cell0) = (inl (75 # 1), inl (-25 # 1), inl (1 # 1))
+  | Error _ => False
+  end.
+Lemma exh_object : exh_object_stmt.
+Proof.
+  unfold exh_object_stmt, load_ts. rewrite exh_stream, (v2g_load_lemma _ _ exh_wf). split; [reflexivity |].
   vm_compute. repeat split; reflexivity.
 Qed.
